@@ -1,8 +1,37 @@
 """C15 — lazy loading and address translation do not change what is observed.
 
-Proof (Props/C15.lean): `isolatedRead_state_independent` (after the F9 fix a lazy data read returns
-the same bytes whatever the stream's error state and position — the key step of lazy = eager),
-`lazy_data_eq_eager` / `translated_eq_plain` as listed in the evidence.  Correspondence + oracle:
+Proof (Props/C15.lean, helper lemmas in Lemmas/LoadSpec.lean), for ALL images / streams:
+ * read primitive: `isolatedRead_state_independent`, `isolatedRead_depends_on_data_only` (bytes and
+   completeness flag of the F9-fixed data read depend on the stream's bytes and kind only, not on
+   position / eofbit / failbit / last count), `isolatedRead_flags_or` (flags afterwards = earlier OR new);
+ * one section / one segment, any image, any translation table: `secGetData_lazy_eq_eager`,
+   `segGetData_lazy_eq_eager` (a lazily loaded part, once requested on a stream in ANY state, shows what
+   the eagerly loaded part shows: all header fields, name, whole data buffer, data size),
+   `freeData_getData`, `interleaving_eq`, `seg_interleaving_eq` (list induction over any sequence of
+   request / release / arbitrary disturbance of the stream's position and error state);
+ * whole load, every image without translation (length < 2^63): `lazy_eq_eager` / `lazy_eq_eager_obs`
+   : if the eager load() succeeds, the lazy load() succeeds with the same header and, for every section and
+   segment and any interleaving, the same observations (simulation of the two runs through the section loop
+   `loadSectionsLoop_sim`, the name step `loadNames_sim`, the segment loop `loadSegmentsLoop_sim`).
+   The hypothesis `re.ok = true` excludes exactly the open finding F15, which is machine-checked:
+   `lazy_load_unreadable_segment_witness` (84-byte image: eager load() = false, lazy load() = true) and
+   `lazy_eq_eager_needs_ok` (the statement without the hypothesis is false).
+   For well-formed images additionally `lazy_eq_eager_wf` (both modes = the specification, via C02);
+ * address translation: `rangeRep_of_entry` (a range inside one table entry whose container image equals
+   the plain bytes is represented), `translated_read_eq`, `translated_hdrRead_eq` (read level), and the
+   full composition `load_eq_spec_tr` / `translated_eq_plain` : WellFormedImage img and
+   `Represents cont table img` (every range the loader reads is represented) -> load on the container
+   with the table succeeds and shows the same header, fields, names, members and data as load on the
+   plain image (eager or lazy, either stream kind, independently on both sides).  Non-vacuity: a concrete
+   container/table for the C02 example image satisfies `Represents` (`decide`).
+ Not proved (stated limits): lazy = eager *with* a translation table on images that are not well-formed
+ (there `stream_size = SIZE_MAX` makes every bound vacuous; in the model a short eager data read then
+ leaves failbit set and later section headers are not read, while the lazy run reads them — outside the
+ property's translation clause, which is claimed for well-formed images only; see ASSUMPTIONS).  This is
+ machine-checked as `lazy_eager_translated_truncated_witness` and reproduced on the real code:
+ corpus/c15/f16-candidate-translated-truncated-container.case.txt (a CANDIDATE finding, deliberately not a
+ corpus case and not in known_findings.json: the integrator decides whether C15 claims it).
+Correspondence + oracle:
 object 0 loads the image eagerly, object 1 lazily and is then driven through a random interleaving of
 data requests and releases (length <= 24) before both are observed; object 2 loads a container
 stream in which the image's pieces sit at displaced positions with a translation table (1-6 ranges
@@ -14,7 +43,20 @@ from families.loadcommon import *
 PROPERTY = "C15"
 FAMILY = "load"
 LEAN_MODULE = "ElfioVerif.Props.C15"
-THEOREMS = ["ElfioVerif.C15.isolatedRead_state_independent"]
+THEOREMS = ["ElfioVerif.C15.isolatedRead_state_independent", "ElfioVerif.C15.isolatedRead_depends_on_data_only",
+            "ElfioVerif.C15.isolatedRead_flags_or",
+            "ElfioVerif.C15.secGetData_lazy_eq_eager", "ElfioVerif.C15.freeData_getData",
+            "ElfioVerif.C15.interleaving_eq",
+            "ElfioVerif.C15.segGetData_lazy_eq_eager", "ElfioVerif.C15.seg_interleaving_eq",
+            "ElfioVerif.C15.lazy_load_unreadable_segment_witness",
+            "ElfioVerif.C15.rangeRep_of_entry", "ElfioVerif.C15.translated_read_eq",
+            "ElfioVerif.C15.translated_hdrRead_eq", "ElfioVerif.C15.lazy_eq_eager_wf",
+            "ElfioVerif.C15.loadSectionsLoop_sim", "ElfioVerif.C15.loadNames_sim",
+            "ElfioVerif.C15.loadSegmentsLoop_sim", "ElfioVerif.C15.lazy_eq_eager",
+            "ElfioVerif.C15.lazy_eq_eager_obs", "ElfioVerif.C15.lazy_eq_eager_needs_ok",
+            "ElfioVerif.loadBody_rep", "ElfioVerif.load_gate_rep",
+            "ElfioVerif.C15.represents_plain", "ElfioVerif.C15.load_eq_spec_tr",
+            "ElfioVerif.C15.translated_eq_plain", "ElfioVerif.C15.lazy_eager_translated_truncated_witness"]
 SITES = ["conv", "load_s", "sec32_load", "sec64_load", "seg32_load", "seg64_load"]
 RULE = ("images: encoder-built well-formed (4 configurations), small bundled examples, and mutated images "
         "(tools/elfspec.mutate incl. truncation) — eager object vs lazy object under a random interleaving of "
